@@ -463,6 +463,28 @@ inline std::vector<i128> intBoundaries() {
     s.insert(p10);
     s.insert(-p10);
   }
+  // rounding to float / double: values just below, at and just above the midpoint between two neighbours of the target
+  // format (cut c = 24 or 53 significant bits), and values whose low bits decide the rounding only if the conversion is done
+  // in one step (a detour through the other floating-point width rounds twice)
+  for (int k = 25; k <= 63; k++) {
+    for (int c : {24, 53}) {
+      if (k - c < 0) continue;
+      i128 half = i128(1) << (k - c);
+      for (int d = -1; d <= 1; d++) {
+        for (i128 v : {(i128(1) << k) + half + d, (i128(1) << k) + 3 * half + d}) {
+          s.insert(v);
+          s.insert(-v);
+        }
+      }
+    }
+    if (k - 24 >= 0)
+      for (int j = 0; j < k - 53; j++)
+        for (int sg : {-1, 1}) {
+          i128 v = (i128(1) << k) + (i128(1) << (k - 24)) + sg * (i128(1) << j);
+          s.insert(v);
+          s.insert(-v);
+        }
+  }
   return std::vector<i128>(s.begin(), s.end());
 }
 
@@ -772,7 +794,9 @@ inline Val ofString(const std::string& s, bool& isNumber) {
   isNumber = looksNumeric(s);
   if (isNumber) {
     t = strtold(p, &end);
-    isNumber = end == p + s.size() && std::isfinite(t);
+    isNumber = end == p + s.size() && !std::isnan(t);
+    // beyond even the long double range (exponents of five and more digits): a number, of a magnitude that no target holds
+    if (isNumber && std::isinf(t)) t = copysignl(1e4900L, t);
   }
   if (!isNumber) {
     Val z = ofInt(0);
@@ -796,10 +820,24 @@ inline Val ofString(const std::string& s, bool& isNumber) {
       }
     }
   }
-  long double e = fabsl(t) * 1e-6L;
+  // the statement's accuracy (C12: 1e-6 relative) is that of the default configuration; a single-precision build keeps six
+  // significant digits of the mantissa (mantissa_max = 2^23-1), which alone is an error of up to 1e-6: 1e-5 there (that build
+  // is run for the parser's 8-bit digit counters, whose failures are wrong by orders of magnitude)
+  long double e = fabsl(t) * (ARDUINOJSON_USE_DOUBLE ? 1e-6L : 1e-5L);
+#if !ARDUINOJSON_USE_DOUBLE
+  // below the normal range of float the nearest representable value is a denormal with few significant bits: anything
+  // between zero and the value (one denormal step of slack) is "a smaller magnitude becomes +-0, never a wrong magnitude"
+  if (fabsl(t) < 1e-37L) {
+    long double step = 1.5e-45L;
+    Val d = ofInterval(std::min(0.0L, t - e) - step, std::max(0.0L, t + e) + step);
+    d.gapZero = true;
+    return d;
+  }
+#endif
   Val v = ofInterval(t - e, t + e);
-  v.gapInf = fabsl(t) > 1e300L;
-  v.gapZero = fabsl(t) < 1e-300L;
+  // in a single-precision build every string is parsed as a float: its range decides what becomes infinity / zero
+  v.gapInf = fabsl(t) > (ARDUINOJSON_USE_DOUBLE ? 1e300L : 1e38L);
+  v.gapZero = fabsl(t) < (ARDUINOJSON_USE_DOUBLE ? 1e-300L : 1e-37L);
   return v;
 }
 
@@ -885,6 +923,7 @@ inline void strLiteral(Ctx& C, const std::string& s, size_t pad) {
   std::string ab = abbreviate(s);
   for (int kind = 0; kind < kStrKinds; kind++) {
     if (kind >= 2 && s.find('\0') != std::string::npos) continue;
+    if (kind >= 1 && s.size() > ArduinoJson::detail::StringNode::maxLength) continue;  // cannot be copied: linked only
     forEachTarget([&](auto t) {
       using T = typename decltype(t)::type;
       if (!C.take()) return;
@@ -927,6 +966,42 @@ inline void runStrings(Ctx& C, bool full) {
     }
     if (C.expired()) return;
   }
+  // 2b. explicit exponents: every marker spelling, zero and non-zero mantissas, exponents around every table / type boundary
+  {
+    const char* mants[] = {"0", "0.0", "0.000", "00", "1", "1.0", "9.99", "123456789012345678901"};
+    const char* marks[] = {"e", "E", "e+", "E+", "e-", "E-"};
+    std::vector<std::string> exps;
+    for (int e = 0; e <= 45; e++) exps.push_back(std::to_string(e));
+    for (int e = 300; e <= 330; e++) exps.push_back(std::to_string(e));
+    for (const char* e : {"400", "1000", "39999", "99999999", "2147483647", "2147483648", "99999999999", "007"}) exps.push_back(e);
+    for (const char* m : mants)
+      for (const char* k : marks)
+        for (auto& e : exps) {
+          strLiteral(C, std::string(m) + k + e, 16);
+          strLiteral(C, "-" + std::string(m) + k + e, 16);
+        }
+    // not numbers (an exponent marker without digits - "1e", "1e+" - is accepted as 1 by the library; the statement does not say
+    // what such a string converts to, so it is not listed)
+    for (const char* bad : {"1e400x", "0e309 ", "1e5.0", "e", "1ee5", "1e+-5", "0e309x"}) strLiteral(C, bad, 16);
+    if (C.expired()) return;
+  }
+  // 2c. very long literals: the digit counters of the parser are narrower than size_t (16 bits by default, 8 bits in a
+  //     single-precision build); linked strings only beyond the maximum length of a copied string
+  if (full) {
+    for (size_t n : std::vector<size_t>{32760, 32767, 32768, 32769, 32775, 65530, 65535, 65536, 65537, 65541, 70000, 131072}) {
+      for (int fam = 0; fam < kFamilies; fam++) {
+        std::string s = famString(fam, n);
+        if (s.empty()) {
+          if (fam != 7) continue;
+          size_t m = n - 3 - std::to_string(n).size();  // 1 0{m} e-m of about n characters
+          s = "1" + std::string(m, '0') + "e-" + std::to_string(m);
+        }
+        strLiteral(C, s, pad);
+        strLiteral(C, "-" + s, pad);
+      }
+      if (C.expired()) return;
+    }
+  }
   // 3. decimal spellings of 2^k + d: type limits and the edges of the integer range [-2^63, 2^64)
   //    (linked copies are zero-padded here: the short ones would otherwise all die in the same way)
   for (int k = 0; k <= 70; k++)
@@ -941,7 +1016,7 @@ inline void runStrings(Ctx& C, bool full) {
   strLiteral(C, "0", 16);
   strLiteral(C, "-0", 16);
   char nb[320];
-  snprintf(nb, sizeof nb, "numeric strings: %d families x 2 signs x %zu lengths (%s) x %d entry points (linked, copied%s) x 14 targets; 2^k+-1 for k<=70; %zu non-numbers",
+  snprintf(nb, sizeof nb, "numeric strings: %d families x 2 signs x %zu lengths (%s) x %d entry points (linked, copied%s) x 14 targets; 8 mantissas x 6 exponent markers x 90 exponents; lengths around 2^15, 2^16, 2^17; 2^k+-1 for k<=70; %zu non-numbers",
            kFamilies, lengths.size(), full ? "every length 1..1300" : "length grid up to 1300", kStrKinds, kStrKinds > 2 ? ", String, Printable in one block / 7-byte blocks / byte-wise" : "", sizeof kNot / sizeof kNot[0]);
   C.bound(nb);
 }
